@@ -88,7 +88,9 @@ def ref_apply(d: dict[str, Any], op: Any) -> dict[str, Any]:
 
 
 def execute(ex: Execution, backend: str, ops: list[Any], initial: dict[str, Any], typed: bool = False,
-            cancels: int = 0) -> tuple[Any, list[Any]]:
+            cancels: int = 0, write_faults: int = 0) -> tuple[Any, list[Any]]:
+    """``write_faults``: that many writes of the SQLite store (explorer-chosen) find the database held by another connection
+    ('database is locked'); the operation that hits it either fails - then it has no effect - or completes"""
     loop = VLoop()
     loop.install()
     v: list[Any] = []
@@ -96,6 +98,20 @@ def execute(ex: Execution, backend: str, ops: list[Any], initial: dict[str, Any]
         initial = S19.Child(**initial).model_dump()
     try:
         store = make_store(backend, initial, typed)
+        fault = {"left": write_faults, "hit": 0}
+        if write_faults:
+            import sqlite3 as _sq
+
+            orig_save = store._save_state
+
+            def save(*a: Any, **kw: Any) -> Any:
+                if fault["left"] and ex.choose(2, "write", ["ok", "database is locked"]) == 1:
+                    fault["left"] -= 1
+                    fault["hit"] += 1
+                    raise _sq.OperationalError("database is locked")
+                return orig_save(*a, **kw)
+
+            store._save_state = save  # type: ignore[method-assign]
         gates: dict[str, asyncio.Future] = {}
         tasks: dict[int, asyncio.Task] = {}
         children: list[asyncio.Task] = []
@@ -171,15 +187,20 @@ def execute(ex: Execution, backend: str, ops: list[Any], initial: dict[str, Any]
         if backend == "sqlite" and initial:
             async def seed() -> None:
                 await store.set_state(S19.Child(**initial) if typed else DictState(**initial))
+            armed, fault["left"] = fault["left"], 0  # (the initial state is written before the faults are armed)
             t0 = loop.create_task(seed())
             loop.drain()
             assert t0.done()
+            fault["left"] = armed
         started = 0
         maxc = 0
         steps = 0
         cancelled: set[int] = set()
         while True:
             loop.drain()
+            while write_faults and loop.timer_deadlines():
+                loop.fire_timers()  # (a store that backs off after a refused write sleeps: time passes, other operations go on meanwhile)
+                loop.drain()
             steps += 1
             maxc = max(maxc, sum(1 for t in tasks.values() if not t.done()))
             acts: list[tuple[str, Any]] = []
@@ -214,11 +235,15 @@ def execute(ex: Execution, backend: str, ops: list[Any], initial: dict[str, Any]
         if cancels:
             w["a_caller_gave_up"] = bool(cancelled)
         stuck = [i for i, t in tasks.items() if not t.done()] + [f"child{j}" for j, t in enumerate(children) if not t.done()]
-        failed = [(i, repr(t.exception())) for i, t in tasks.items() if t.done() and not t.cancelled() and t.exception() is not None] + \
+        refused = [i for i, t in tasks.items() if write_faults and t.done() and not t.cancelled() and t.exception() is not None
+                   and "database is locked" in str(t.exception())]
+        if write_faults:
+            w["a_write_was_refused_once"] = bool(fault["hit"])
+        failed = [(i, repr(t.exception())) for i, t in tasks.items() if t.done() and not t.cancelled() and t.exception() is not None and i not in refused] + \
                  [(f"child{j}", repr(t.exception())) for j, t in enumerate(children) if t.done() and not t.cancelled() and t.exception() is not None]
         # an operation cancelled while it waited (for the lock / at its gate, i.e. before its write) has no effect;
         # one that had already finished when cancel() came is a completed operation
-        effective = [i for i in range(n) if i in tasks and tasks[i].done() and not tasks[i].cancelled()]
+        effective = [i for i in range(n) if i in tasks and tasks[i].done() and not tasks[i].cancelled() and i not in refused]
         if stuck:
             v.append(("operation_never_completes", w, f"ops {ops}: tasks {stuck} still blocked after every gate was released"))
         if failed:
@@ -236,7 +261,7 @@ def execute(ex: Execution, backend: str, ops: list[Any], initial: dict[str, Any]
             ref_ops: list[Any] = []
             for o in ops:
                 ref_ops += [("edit_inc", o[1]), ("set", o[2], o[3])] if o[0] == "edit_spawn_set" else [o]
-            idx = effective if cancels else range(len(ref_ops))
+            idx = effective if (cancels or write_faults) else range(len(ref_ops))
             for perm in itertools.permutations(idx):
                 d = dict(initial)
                 for i in perm:
@@ -310,6 +335,13 @@ def programs(tier: str) -> list[Program]:
             ps.append(Program(f"{backend}/cancel1/{name}", {"backend": backend, "ops": ops, "initial": initial, "cancels": 1},
                               (lambda ex, backend=backend, ops=ops, initial=initial: execute(ex, backend, ops, initial, False, 1)),
                               max_dev=(4 if tier == "quick" else None), min_concurrency=2))
+    # one write of the SQLite store refused ('database is locked'): the operation fails and has no effect, or completes - the final
+    # state is a serial order of the operations that completed
+    for name, ops, initial in (("inc_put", [inc_x, ("edit_put", "m", 1)], {"x": 0}), ("inc_set", [inc_x, ("set", "y", 1)], {"x": 0}),
+                               ("inc_inc", [inc_x, inc_x], {"x": 0}), ("inc_set_state", [inc_x, ("set_state", {"y": 1})], {"x": 0})):
+        ps.append(Program(f"sqlite/write_refused_once/{name}", {"backend": "sqlite", "ops": ops, "initial": initial, "write_faults": 1},
+                          (lambda ex, ops=ops, initial=initial: execute(ex, "sqlite", ops, initial, False, 0, 1)),
+                          max_dev=(5 if tier == "quick" else None), min_concurrency=2))
     for backend in ("memory", "sqlite"):
         for name, ops, initial in typed_op_sets(tier):
             ps.append(Program(f"{backend}/typed/{name}", {"backend": backend, "ops": ops, "initial": initial, "typed": True},
